@@ -25,7 +25,7 @@ pub fn hosts() -> Vec<(&'static str, Host)> {
     vec![("none", Host::none()), ("declining", declining), ("accepting", accepting)]
 }
 
-const LITS: [&str; 24] = [
+const LITS: [&str; 26] = [
     "0",
     "1",
     "31",
@@ -45,6 +45,8 @@ const LITS: [&str; 24] = [
     "''",
     "'a'",
     ":s",
+    ":hé",
+    "é_x",
     "()",
     "(1 2)",
     "(:k = 1,)",
@@ -393,7 +395,7 @@ impl Property for C07 {
     fn meta(&self, tier: Tier) -> Meta {
         let l = layout(tier);
         Meta {
-            rule: format!("(a) the {} programs of the C01 corpora and every accepted input of the C03/C04 token corpora (K1, K2, K4, K5; lengths up to 5 in the quick tier, all in the thorough tier); (b) {} boundary programs: every prefix/suffix operator on, and every binary operator (ranges, casts, concatenation, partial apply, conditionals included) between, 24 boundary literals (i32 limits, 31/32/33/64, huge float, empty and multi-byte text, empty bytes, symbol, unit, list, keyed list, range, concatenation), casts to the type of each literal, and index / apply / slice / slice-of-slice families over 6 container kinds x 8 boundary indexes; each run to completion (step cap 2 000) on both implementations under hosts {{none, declining, accepting}} with a mixed keyed/unkeyed list as input; (c) {} deep-data cases: pairs (left/right nested), lists and concatenations nested 10/100/1 000/10 000 deep built through the data API, then Equal (self, copy), LessThan, casts to CharList/ByteList/Symbol, `.|`, clone_data as single instructions. Verdict: no panic unwinds, no abort, no hang (supervised). Non-trivial: every case; distinct by text / parameters.", l.programs, l.boundary, l.deep),
+            rule: format!("(a) the {} programs of the C01 corpora and every accepted input of the C03/C04 token corpora (K1, K2, K4, K5; lengths up to 5 in the quick tier, all in the thorough tier); (b) {} boundary programs: every prefix/suffix operator on, and every binary operator (ranges, casts, concatenation, partial apply, conditionals included) between, 26 boundary literals (i32 limits, 31/32/33/64, huge float, empty and multi-byte text, empty bytes, symbol, symbol and identifier with a multi-byte name, unit, list, keyed list, range, concatenation), casts to the type of each literal, and index / apply / slice / slice-of-slice families over 6 container kinds x 8 boundary indexes; each run to completion (step cap 2 000) on both implementations under hosts {{none, declining, accepting}} with a mixed keyed/unkeyed list as input; (c) {} deep-data cases: pairs (left/right nested), lists and concatenations nested 10/100/1 000/10 000 deep built through the data API, then Equal (self, copy), LessThan, casts to CharList/ByteList/Symbol, `.|`, clone_data as single instructions. Verdict: no panic unwinds, no abort, no hang (supervised). Non-trivial: every case; distinct by text / parameters.", l.programs, l.boundary, l.deep),
             assumptions: vec![
                 "an Err returned by a step is acceptable; only unwinding, aborting and exceeding the wall budget are violations".into(),
                 "a worker that aborts (stack overflow) or hangs is attributed to the in-flight element by the supervisor and confirmed in a fresh process".into(),
